@@ -341,17 +341,17 @@ theorem fixedLen_cells (t : Text) (h : LenOK t) (n : Int) :
   · rw [if_neg h1, if_neg (show ¬ n < (t.cells.length : Int) by omega)]
     by_cases h2 : n - (t.scrlen : Int) > 0
     · rw [if_pos h2, add_cells, h]; rfl
-    · rw [if_neg h2, show (n - (t.cells.length : Int)).toNat = 0 by omega]
-      simp [spaces, plainCells]
+    · rw [if_neg h2, show (n - (t.cells.length : Int)).toNat = 0 by omega, construct_cells]
+      simp [spaces, plainCells, Part.cellsList, Part.cells]
 
-theorem fixedLen_canon (t : Text) (h : Canon t) (n : Int) : Canon (t.fixedLen n) := by
+theorem fixedLen_canon (t : Text) (n : Int) : Canon (t.fixedLen n) := by
   unfold Text.fixedLen
   simp only []
   split
   · exact getSlice_canon _ _ _
   · split
     · exact add_canon _ _
-    · exact h
+    · exact construct_canon _
 
 /-! ### the chunk versions -/
 
